@@ -35,13 +35,13 @@ def run_impl(c, ignore):
     X = pd.DataFrame(np.zeros((n, p)))
     if c["det"] == "CAPA":
         d = CAPA(collective_saving=ts.TableSaving(c["ctabs"]), point_saving=ts.TableSaving(c["ptabs"]),
-                 min_segment_length=c["m"], max_segment_length=c["M"], ignore_point_anomalies=ignore).fit(X)
+                 min_segment_length=c["m"], max_segment_length=c["M"], ignore_point_anomalies=ignore).fit(pd.DataFrame(np.zeros((len(X) + (len(X) * 7 + 3) % 5, X.shape[1]))))
         d.collective_penalty_ = float(c["ac"])
         d.point_penalty_ = float(c["ap"])
     else:
         d = MVCAPA(collective_saving=ts.TableSaving(c["ctabs"]), point_saving=ts.TableSaving(c["ptabs"]),
                    collective_penalty=pen_callable(c["ac"], c["bc"]), point_penalty=pen_callable(c["ap"], c["bp"]),
-                   min_segment_length=c["m"], max_segment_length=c["M"], ignore_point_anomalies=ignore).fit(X)
+                   min_segment_length=c["m"], max_segment_length=c["M"], ignore_point_anomalies=ignore).fit(pd.DataFrame(np.zeros((len(X) + (len(X) * 7 + 3) % 5, X.shape[1]))))
     scores = d.transform_scores(X).to_numpy()
     y = d.predict(X)
     iv = y["ilocs"].array
@@ -188,3 +188,32 @@ def run(ctx):
     reuse_stream(ctx, "CAPA", lambda: CAPA(min_segment_length=2), ctx.n(5, 30))
     reuse_stream(ctx, "CAPA(GaussianVarCost)", lambda: CAPA(collective_saving=GaussianVarCost((0.0, 1.0)), min_segment_length=3, ignore_point_anomalies=True), ctx.n(3, 20))
     reuse_stream(ctx, "MVCAPA", lambda: MVCAPA(min_segment_length=2), ctx.n(5, 30), p_choices=(2, 3))
+    # ---- a cost passed as saving is converted by to_saving: the result must be the saving of THAT cost (baseline minus optimal), i.e. identical to passing
+    # ---- Saving(cost) explicitly, and its values must equal the definition computed from the rows (baseline mean vectors with some zero entries included)
+    from harness import direct as _direct
+    from skchange.anomaly_scores import Saving as _Saving
+    from skchange.costs import L2Cost as _L2
+    for it in range(ctx.n(10, 80)):
+        p = ctx.rng.choice([2, 3])
+        n = ctx.rng.randint(12, 30)
+        Xn = np.asarray([[float(ctx.rng.randint(-3, 3)) for _ in range(p)] for _ in range(n)])
+        a0 = ctx.rng.randint(1, n - 6)
+        Xn[a0:a0 + 4] += ctx.rng.choice([6.0, -7.0])
+        mu = np.asarray([ctx.rng.choice([0.0, 0.0, 2.0, -1.5]) for _ in range(p)])
+        X = pd.DataFrame(Xn)
+        for dn, mk in (("CAPA", lambda sv: CAPA(collective_saving=sv, min_segment_length=2)), ("MVCAPA", lambda sv: MVCAPA(collective_saving=sv, min_segment_length=2))):
+            da, db = mk(_L2(mu)).fit(X), mk(_Saving(_L2(mu))).fit(X)
+            ya, yb = da.predict(X), db.predict(X)
+            sa, sb = da.transform_scores(X).to_numpy(), db.transform_scores(X).to_numpy()
+            ctx.case({"to_saving": it, "X": Xn.tolist(), "mu": mu.tolist(), "det": dn}, nontrivial=len(ya) > 0)
+            if not (np.allclose(sa, sb, rtol=1e-9, atol=1e-9) and list(ya["ilocs"].array.left) == list(yb["ilocs"].array.left)
+                    and list(ya["ilocs"].array.right) == list(yb["ilocs"].array.right)):
+                ctx.violation(f"{dn}(collective_saving=L2Cost({mu.tolist()})) differs from {dn}(collective_saving=Saving(L2Cost(...))): the cost was not converted into its own saving",
+                              {"X": Xn.tolist(), "mean": mu.tolist(), "detector": dn}, {"what": "to_saving", "det": dn})
+        sv = da._collective_saving
+        s0, e0 = 1, min(n, 9)
+        got = sv.evaluate(np.asarray([[s0, e0]]))[0]
+        want = _direct.saving_direct("l2", mu, Xn, s0, e0)
+        if not _direct.close(got, want, scale=float(np.sum(Xn ** 2)) + 1):
+            ctx.violation(f"the saving used by MVCAPA(collective_saving=L2Cost({mu.tolist()})) on [{s0},{e0}) is {got.tolist()}, the definition gives {np.asarray(want).tolist()}",
+                          {"X": Xn.tolist(), "mean": mu.tolist()}, {"what": "to_saving-values"})
